@@ -378,6 +378,25 @@ def fam_checksum(tier):
                 m = bytearray(good)
                 m[pos] = rnd.randrange(256)
                 sc.line(bytes(m), 0, 0)
+    # every checksum value 0x00..0xFF as the XOR of a sentence (a free byte in the channel field is chosen to
+    # make it so), transmitted in lower and upper case - and the same with one hex digit changed
+    sc.unit()
+    sc.new(0)
+    for target in range(256):
+        kw = dict(payload=rand_armor(rnd, rnd.randrange(1, 30)), fill=0, chan=b"")
+        x = nmea.xor(nmea.body(**kw)) ^ target
+        if x in (44, 42, 10, 13, 0):
+            kw["chan"] = b"A"
+            x = nmea.xor(nmea.body(**kw)) ^ target ^ 65
+            kw["chan"] = b"A" + bytes([x]) if x not in (44, 42, 10, 13) else b"AB" + bytes([x ^ 66])
+        else:
+            kw["chan"] = bytes([x])
+        if nmea.xor(nmea.body(**kw)) != target or 44 in kw["chan"] or 42 in kw["chan"]:
+            continue
+        for fmt in ("%02x", "%02X"):
+            sc.line(nmea.line(ck=(fmt % target).encode(), **kw), 0, 0)
+            sc.line(nmea.line(ck=(fmt % (target ^ 0x0f)).encode(), **kw), 0, 0)
+            sc.line(nmea.line(ck=(fmt % (target ^ 0xf0)).encode(), **kw), 0, 0)
     # the gate does not remember: a line is checked on its own bytes whatever was presented before, with
     # whatever decode flag, in the same (reused) read buffer - same length, same transmitted value, other bytes
     for bi, kw in enumerate(base_sentences(rnd, 60 if thorough else 8)):
@@ -464,6 +483,24 @@ def fam_grammar(tier):
                 fx = fix_checksum(m)
                 if fx != m:
                     sc.line(fx, 0, 0)
+    # the shortest and the longest well-formed sentences: one-character payload, empty channel, one-digit
+    # checksum (a body whose XOR is below 16), one to eight checksum digits, every delimiter and history;
+    # several tag blocks in front of the delimiter (ill-formed)
+    sc.unit()
+    sc.new(0)
+    for c in nmea.ARMOR[::3]:
+        for chan in (b"", b"A", b"1"):
+            for delim in (b"!", b"$"):
+                kw = dict(payload=bytes([c]), chan=chan, delim=delim, addr=rnd.choice([b"AIVDM", b"AIVDO"]))
+                x = nmea.xor(nmea.body(**{k: v for k, v in kw.items() if k != "delim"}))
+                sc.line(nmea.line(**kw), 0, rnd.randrange(2))
+                for form in ("%X", "%x", "%03X", "%08X"):
+                    sc.line(nmea.line(ck=(form % x).encode(), **kw), 0, 0)
+                sc.line(nmea.line(n=2, k=1, sid=None, **kw), 0, 0)
+                sc.line(nmea.line(n=2, k=2, sid=None, fill=2, **kw), 0, 0)
+    good = nmea.line(payload=b"15M67FC000G?ufbE`FepT@3n00Sa")
+    for pre in (b"\\a\\\\b\\", b"\\s:1*00\\\\s:1*00\\", b"\\a\\\\\\", b"\\\\\\\\", b"\\a\\x\\b\\", b"\\a\\ "):
+        sc.line(pre + good, 0, 0)
     # whole-field mutations with a correct checksum
     sc.unit()
     sc.new(0)
@@ -1098,9 +1135,25 @@ def fam_decode_history(tier, only_types=None):
             bad = bytearray(b"w" * len(pay))
             bad[0] = pay[0]
             bad[badpos] = rnd.choice(b"XY_xz~ ")
-            for follow in (good, zero, una):
+            for fi, follow in enumerate((good, zero, una)):
+                key = "dh%d-%d-%d-%d" % (s[0], s[1], badpos, fi) + "".join("%s%d" % (k[:2], v) for k, v in s[2].items())
+                fpay, ffill = nmea.armor(follow.bytes(), follow.n)
+                sc.decode(corpus.unarmor(fpay, ffill), tag="A:" + key)
                 sc.line(nmea.line(payload=bytes(bad), fill=0), 0, 1)
-                emit(sc, follow, "L")
+                sc.line(nmea.line(payload=fpay, fill=ffill), 0, 1,
+                        tag="B:%s:C03:msgeq:sentence-path-vs-direct-decode-of-the-unarmored-payload" % key)
+                # ... nor after a well-armored sentence of a type that is not decoded
+                sc.line(nmea.line(payload=b"F" + b"w" * (len(pay) - 1), fill=0), 0, 1)
+                sc.line(nmea.line(payload=fpay, fill=ffill), 0, 1,
+                        tag="B:%s:C03:msgeq:sentence-path-vs-direct-decode-of-the-unarmored-payload" % key)
+        # ... and the decode flag of earlier calls does not matter: two messages of this shape presented with
+        # decoding on, off, on in every order
+        other = rand_message(tb, rnd, shape=s)
+        pay2, fill2 = nmea.armor(other.bytes(), other.n)
+        la, lb = nmea.line(payload=pay, fill=fill), nmea.line(payload=pay2, fill=fill2, chan=b"B")
+        for seq in (((la, 1), (lb, 0), (lb, 1)), ((lb, 1), (la, 0), (la, 1), (lb, 1)), ((la, 0), (la, 1), (lb, 0), (lb, 1), (la, 1))):
+            for ln, dec in seq:
+                sc.line(ln, 0, dec)
     return sc
 
 
@@ -1301,6 +1354,43 @@ def fam_binary(tier):
         d = bytearray(rnd.randrange(256) for _ in range(hdr // 8 + nb))
         d[0] = (t << 2) | (d[0] & 3)
         sc.decode(bytes(d))
+    # payloads that do not end on a byte: every character count modulo 4 with every fill count, the last
+    # transmitted bits set (the returned bytes are the transmitted bits, padded with zeros)
+    sc.unit()
+    sc.new(0)
+    for (t, hdr) in ((6, 88), (8, 56), (17, 120)):
+        base = (hdr + 5) // 6
+        for extra in range(1, 14):
+            for fill in range(6):
+                for tailc in (b"w", b"0", None):
+                    pay = bytearray(rand_armor(rnd, base + extra))
+                    pay[0] = nmea.ARMOR[t]
+                    if tailc:
+                        pay[-1] = tailc[0]
+                        pay[-2] = tailc[0]
+                    sc.line(nmea.line(payload=bytes(pay), fill=fill), 0, 1)
+    # a rejected line inside the group (another group's last fragment, a wrong number, noise) costs no byte
+    for gi in range(200 if thorough else 24):
+        sc.unit()
+        sc.new(0)
+        t, hdr, maxbits = ((6, 88, 920), (8, 56, 952), (17, 120, 696))[gi % 3]
+        nb = rnd.randrange(4, 60)
+        d = bytearray(rnd.randrange(256) for _ in range(hdr // 8 + nb))
+        d[0] = (t << 2) | (d[0] & 3)
+        pay, fill = nmea.armor(bytes(d))
+        parts = rnd.randrange(2, 5)
+        cuts = split_points(rnd, len(pay), parts)
+        sid = rnd.choice([None, 1, 4])
+        for k in range(1, parts + 1):
+            if k > 1:
+                kind = (gi + k) % 4
+                if kind == 0:
+                    sc.line(nmea.line(n=2, k=2, sid=7, payload=rand_armor(rnd, 6)), 0, 1)            # another group's last fragment
+                elif kind == 1:
+                    sc.line(nmea.line(n=parts, k=parts if k != parts else parts + 1, sid=sid, payload=rand_armor(rnd, 6)), 0, 1) if k != parts else sc.line(noise_line(rnd), 0, 1)
+                elif kind == 2:
+                    sc.line(noise_line(rnd), 0, 1)
+            sc.line(nmea.line(n=parts, k=k, sid=sid, payload=pay[cuts[k - 1]:cuts[k]], fill=fill if k == parts else 0), 0, 1)
     return sc
 
 
@@ -1521,19 +1611,32 @@ def fam_twin(tier):
         sc.new(0)
         sc.new(1)
         ids = rnd.choice([[None, 1, 2], [0, 1, 2, 3], [5]])
+        # every third unit carries decodable messages and is parsed with decoding requested throughout
+        decoded = si % 4 == 1
+        cdec = 1 if decoded else 0
         # the common lines: complete in-order groups (never removable, always in sequence)
         common = []
         for g in range(rnd.randrange(2, 7)):
             n = rnd.randrange(2, 6)
             sid = rnd.choice(ids)
-            common += [dict(n=n, k=k, sid=sid, payload=rand_armor(rnd, rnd.randrange(1, 10)), fill=0)
-                       for k in range(1, n + 1)]
+            if decoded:
+                buf = rand_message(T.tables(), rnd)
+                mpay, mfill = nmea.armor(buf.bytes(), buf.n)
+                n = min(n, len(mpay))
+                cuts = split_points(rnd, len(mpay), n)
+                common += [dict(n=n, k=k, sid=sid, payload=mpay[cuts[k - 1]:cuts[k]], fill=mfill if k == n else 0)
+                           for k in range(1, n + 1)]
+            else:
+                common += [dict(n=n, k=k, sid=sid, payload=rand_armor(rnd, rnd.randrange(1, 10)), fill=0)
+                           for k in range(1, n + 1)]
         pending_b = []
         for kw in common:
             # removable lines before this common line (stream A only)
             for _ in range(rnd.choice([0, 0, 1, 1, 2, 3])):
-                kind = rnd.randrange(6)
-                if kind == 0:
+                kind = rnd.randrange(8 if decoded else 6)
+                if kind >= 6:       # unfragmented, checksum right, payload stops being armored data part-way
+                    ln = nmea.line(payload=b"w" * rnd.randrange(1, 40) + rnd.choice([b"X", b"_", b"~", b" "]) + rand_armor(rnd, rnd.randrange(0, 5)))
+                elif kind == 0:
                     ln = noise_line(rnd)
                 elif kind == 1:     # out of sequence: a fragment that does not continue the open group
                     ln = nmea.line(n=kw["n"], k=kw["k"] + rnd.choice([1, 2]), sid=kw["sid"], payload=rand_armor(rnd, 3))
@@ -1553,17 +1656,17 @@ def fam_twin(tier):
                         ln = nmea.line(n=1, k=rnd.choice([2, 3, kw["k"], kw["k"] + 1, 255]), sid=rnd.choice([kw["sid"], None]), payload=rand_armor(rnd, 6))
                 else:
                     ln = nmea.line(payload=rand_armor(rnd, rnd.randrange(1, 20)), fill=rnd.randrange(6))
-                sc.line(ln, 0, rnd.randrange(2), tag="R:")
+                sc.line(ln, 0, 1 if decoded else rnd.randrange(2), tag="R:")
             key += 1
             b = nmea.line(**kw)
-            sc.line(b, 0, 0, tag="A:t%d" % key)
+            sc.line(b, 0, cdec, tag="A:t%d" % key)
             pending_b.append((b, key))
             # stream B is fed with a lag, interleaved with A in the same process
             while pending_b and rnd.random() < 0.6:
                 bb, kk = pending_b.pop(0)
-                sc.line(bb, 1, 0, tag="B:t%d:C17:full:removal-of-rejected-or-unfragmented-lines" % kk)
+                sc.line(bb, 1, cdec, tag="B:t%d:C17:full:removal-of-rejected-or-unfragmented-lines" % kk)
         for bb, kk in pending_b:
-            sc.line(bb, 1, 0, tag="B:t%d:C17:full:removal-of-rejected-or-unfragmented-lines" % kk)
+            sc.line(bb, 1, cdec, tag="B:t%d:C17:full:removal-of-rejected-or-unfragmented-lines" % kk)
     return sc
 
 
